@@ -24,6 +24,9 @@ from vf.core import Check, require
 
 PROPERTY_ID = 'C04'
 NEEDS_TF = False
+FUZZ_CHECKS = ['window_permutation', 'batch_count']
+FUZZ_INSTRUMENT = ['fedjax.core.client_datasets']
+FUZZ_RUNS = {'quick': 3000, 'thorough': 300000}
 LEVEL = 'exploration'
 RULE = ('Hypothesis draws N in 1..40 (thorough 1..120), batch_size in 1..50 '
         '(thorough 1..150) plus values tied to N and N*num_epochs (N-1, N, N+1, '
